@@ -8,6 +8,7 @@
   Model/SqlText.lean and are run against the real code / real SQLite on every run by harness/engines/c06.py.
 -/
 import PonyVerif.Gen.Quote
+import PonyVerif.Gen.SqlBuild
 import PonyVerif.Py.Lemmas
 import PonyVerif.Lemmas.SqlText
 namespace PonyVerif.Props.C06
@@ -26,6 +27,53 @@ theorem C06_bridge_quoteStr (s style : String) :
   · by_cases h2 : style = "pyformat"
     · subst h2; simp [PonyVerif.Gen.quoteStr, quoteStrS, PyVal.inList, PyVal.replace, bind, Except.bind, pure, Except.pure]
     · simp [PonyVerif.Gen.quoteStr, quoteStrS, PyVal.inList, PyVal.replace, bind, Except.bind, pure, Except.pure, h1, h2]
+
+/-! ### bridges: how MOD / LIKE / REPLACE nodes become SQL text (regenerated from `SQLBuilder` on every run) -/
+
+/-- the operator text of `SQLBuilder.MOD` on Lean `String`s -/
+def modSymbolS (style : String) : String := if style == "format" || style == "pyformat" then " %% " else " % "
+
+theorem C06_bridge_mod (a b : PyVal) (style : String) :
+    PonyVerif.Gen.sqlMod a b (.str style)
+      = .ok (.list [.str "(", .call "builder" [a], .str (modSymbolS style), .call "builder" [b], .str ")"]) := by
+  by_cases h1 : style = "format"
+  · subst h1; simp [PonyVerif.Gen.sqlMod, modSymbolS, PyVal.inList, bind, Except.bind, pure, Except.pure]
+  · by_cases h2 : style = "pyformat"
+    · subst h2; simp [PonyVerif.Gen.sqlMod, modSymbolS, PyVal.inList, bind, Except.bind, pure, Except.pure]
+    · simp [PonyVerif.Gen.sqlMod, modSymbolS, PyVal.inList, bind, Except.bind, pure, Except.pure, h1, h2]
+
+/-- `expr LIKE template [ESCAPE escape]`: the ESCAPE clause is written exactly when `_like` appended `[ 'VALUE', '!' ]` -/
+theorem C06_bridge_like (e t : PyVal) (esc : Option PyVal) (hesc : ∀ v, esc = some v → PyVal.truthy v = true) :
+    PonyVerif.Gen.sqlLike e t (esc.getD .none)
+      = .ok (.list ([.call "builder" [e], .str " LIKE ", .call "builder" [t]] ++
+                    match esc with
+                    | none => []
+                    | some v => [.str " ESCAPE ", .call "builder" [v]])) := by
+  cases esc with
+  | none => simp [PonyVerif.Gen.sqlLike, bind, Except.bind, pure, Except.pure]
+  | some v =>
+    have := hesc v rfl
+    simp [PonyVerif.Gen.sqlLike, bind, Except.bind, pure, Except.pure, this, PyVal.add]
+
+theorem C06_bridge_not_like (e t : PyVal) (esc : Option PyVal) (hesc : ∀ v, esc = some v → PyVal.truthy v = true) :
+    PonyVerif.Gen.sqlNotLike e t (esc.getD .none)
+      = .ok (.list ([.call "builder" [e], .str " NOT LIKE ", .call "builder" [t]] ++
+                    match esc with
+                    | none => []
+                    | some v => [.str " ESCAPE ", .call "builder" [v]])) := by
+  cases esc with
+  | none => simp [PonyVerif.Gen.sqlNotLike, bind, Except.bind, pure, Except.pure]
+  | some v =>
+    have := hesc v rfl
+    simp [PonyVerif.Gen.sqlNotLike, bind, Except.bind, pure, Except.pure, this, PyVal.add]
+
+/-- `replace(str, from, to)`: argument order of the SQL function = argument order of the AST node `_like` builds -/
+theorem C06_bridge_replace (a b c : PyVal) :
+    PonyVerif.Gen.sqlReplaceCall a b c
+      = .ok (.list [.str "replace(", .call "builder" [a], .str ", ", .call "builder" [b], .str ", ", .call "builder" [c], .str ")"]) := by
+  simp [PonyVerif.Gen.sqlReplaceCall, pure, Except.pure]
+
+example : PyVal.truthy (.list [.str "VALUE", .str "!"]) = true := rfl
 
 /-! ### string literals -/
 
@@ -153,6 +201,29 @@ theorem C06_ident_expand_partial (style : Style) (q : Char) (n : Str) (h : style
   · simp [expandPercent, hp, C06_ident_roundtrip]
 
 example : (Style.named).percent = false ∨ ('%' ∉ ['a', '%', 'b'] ∧ '\x22' ≠ '%') := Or.inl rfl
+
+/-! ### statement structure -/
+
+/-- **No value or name can change the structure of the statement.**  For every statement assembled from raw SQL text
+    written by Pony (no quote characters), string values (`quote_str`) and names (`quote_name`), in any number and order
+    (two tokens quoted with the same character never adjacent), the text the parser sees outside quoted tokens — the
+    skeleton — is exactly the raw text with one marker per value / name … -/
+theorem C06_statement_structure (ps : List Piece) (h : WFPieces none ps) :
+    skeleton .out (renderPieces ps) = some (skelPieces ps) := by
+  simpa [stateOf, pending] using skeleton_pieces ps none (by simp) h
+
+/-- … hence it does not depend on the values and names at all: two statements of the same shape have the same skeleton,
+    whatever strings and identifiers are put in. -/
+theorem C06_structure_value_independent (ps qs : List Piece) (hs : ps.map Piece.shape = qs.map Piece.shape)
+    (h : WFPieces none ps) : skeleton .out (renderPieces ps) = skeleton .out (renderPieces qs) := by
+  have hq : WFPieces none qs := by
+    rw [← WFPieces_shape, ← hs, WFPieces_shape]; exact h
+  rw [C06_statement_structure ps h, C06_statement_structure qs hq, ← skelPieces_shape ps, ← skelPieces_shape qs, hs]
+
+/-- a concrete statement: `SELECT "n" FROM "t" WHERE "n" = '<hostile value>'` is well-formed for every value -/
+example (v n t : Str) :
+    WFPieces none [.raw ['S', 'E', 'L', ' '], .ident '\x22' n, .raw [' ', 'F', ' '], .ident '\x22' t, .raw [' ', '=', ' '], .lit v] := by
+  simp [WFPieces, isQuote]
 
 /-! ### LIKE -/
 
